@@ -163,6 +163,13 @@ func (br *boundsRun) install(in *sym.Interp, assume []*sym.Term) {
 			}
 		}
 		ok, why := b.checkAccess(kind, x, y, z)
+		if !ok && os.Getenv("IVGSA_DEBUG_BOUNDS") != "" && strings.Contains(fr.Stack(), os.Getenv("IVGSA_DEBUG_BOUNDS")) {
+			fmt.Fprintf(os.Stderr, "BOUNDS %s %s: x=%s y=%s\n   lits:", br.c.Pos(site), kind, shortKey(x), shortKey(y))
+			for _, l := range b.lits {
+				fmt.Fprintf(os.Stderr, " [%s]", shortKey(l))
+			}
+			fmt.Fprintln(os.Stderr)
+		}
 		if ok {
 			sr.proofs[why] = true
 		} else {
